@@ -84,12 +84,19 @@ type instance struct {
 	dir   string
 	clock int64
 	hist  []*event
+	// noFinalRead: judge the calls only (fault part, where the file may be left unreadable on purpose)
+	noFinalRead bool
 }
+
+const callbackRefuses = "the callback refuses"
 
 func transformFunc(o op, seen *string) func([]byte) ([]byte, error) {
 	return func(old []byte) ([]byte, error) {
 		*seen = string(old)
 		switch o.Kind {
+		case "tfail":
+			// the function reports an error: the previous contents must remain
+			return []byte("never to be seen"), errors.New(callbackRefuses)
 		case "append":
 			return append(append([]byte(nil), old...), o.Arg...), nil
 		default: // shrink
@@ -224,6 +231,10 @@ func step(state string, e *event) (bool, string) {
 		if e.Out != old {
 			return false, state
 		}
+		if e.Op.Kind == "tfail" {
+			// nothing changes (a file that did not exist has been created, empty)
+			return true, old
+		}
 		seen := ""
 		nw, _ := transformFunc(e.Op, &seen)([]byte(old))
 		return true, string(nw)
@@ -310,10 +321,28 @@ func judge(in *instance, e *sched.Exec) (string, string) {
 		if !ev.Done {
 			return "call-did-not-return", fmt.Sprintf("T%d %s did not return", ev.Thread, ev.Op)
 		}
+		if ev.Op.Kind == "tfail" {
+			if !strings.Contains(ev.Err, callbackRefuses) {
+				return "error-not-reported", fmt.Sprintf("T%d Transform with a function that reports an error returned %q", ev.Thread, ev.Err)
+			}
+			continue
+		}
 		if ev.Err != "" && !(ev.Op.Kind == "read" && ev.Out == absent) {
 			return "unexpected-error", fmt.Sprintf("T%d %s failed: %s", ev.Thread, ev.Op, ev.Err)
 		}
 	}
+	// what the file holds when everybody has returned is part of the history: a
+	// final Read after all calls
+	hist := in.hist
+	if !in.noFinalRead {
+		fin := &event{Thread: 0, Op: op{"read", ""}, Call: in.clock + 1, Ret: in.clock + 2, Done: true}
+		fin.Out, fin.Err = perform(filepath.Join(in.dir, "f"), fin.Op)
+		if fin.Err != "" && fin.Out != absent {
+			return "unexpected-error", "the Read after all calls returned fails: " + fin.Err
+		}
+		hist = append(append([]*event(nil), in.hist...), fin)
+	}
+	in = &instance{sc: in.sc, dir: in.dir, clock: in.clock, hist: hist}
 	p := linearizablePorcupine(in.sc.Init, in.hist)
 	b := linearizableBrute(in.sc.Init, in.hist)
 	if p != b {
@@ -432,6 +461,7 @@ func scenarios(th bool) []scenario {
 	wA, wB := op{"write", "A"}, op{"write", "BBBBBB"}
 	a1, a2 := op{"append", "+t1"}, op{"append", "+t2"}
 	sh := op{"shrink", ""}
+	tf := op{"tfail", ""}
 	b3, b22 := 3, 4
 	if th {
 		b3, b22 = 4, -1
@@ -456,6 +486,14 @@ func scenarios(th bool) []scenario {
 		{"creation append||R", absent, [][]op{{a1}, {rd}}, -1},
 		{"creation append||append", absent, [][]op{{a1}, {a2}}, -1},
 		{"creation W||W", absent, [][]op{{wA}, {wB}}, -1},
+		// a Transform whose function reports an error changes nothing -- also not
+		// for the callers queued behind it
+		{"tfail||W", "v0v0", [][]op{{tf}, {wA}}, -1},
+		{"tfail||append", "v0v0", [][]op{{tf}, {a1}}, -1},
+		{"tfail||append||R", "v0v0", [][]op{{tf}, {a1}, {rd}}, b3},
+		{"creation tfail||W", absent, [][]op{{tf}, {wA}}, -1},
+		{"creation tfail||append", absent, [][]op{{tf}, {a1}}, -1},
+		{"creation tfail||W||W", absent, [][]op{{tf}, {wA}, {wB}}, b3},
 	}
 	pb := 2
 	if th {
